@@ -32,7 +32,7 @@ async def _batch(mpc, cases, evaluator, ctxarg, chunk, case_timeout=None):
 
 
 def run_batch(cases, evaluator, m, t, seed=0, no_prss=False, sec_param=30, ctxarg=None, chunk=40,
-              scheduler=None, max_steps=3000000, options=None, case_timeout=None):
+              scheduler=None, max_steps=40000000, options=None, case_timeout=None):
     """evaluator(mpc, case, index, ctxarg) -> awaitable giving a JSON-able result.
     Returns (status, results per party, errors)."""
     w = World(m, t, seed=seed, no_prss=no_prss, sec_param=sec_param, options=options)
